@@ -18,6 +18,16 @@ import (
 // Case is one size value; all four formats and the three rendering methods are judged for it.
 type Case struct {
 	S uint64 `json:"size"`
+	// Switches: bit 0 DisableMarshalTextUnit, bit 1 DisableMarshalJSONStringForm, bit 2 DisableMarshalJSONObjectForm (must be irrelevant here).
+	Switches int `json:"switches,omitempty"`
+}
+
+func configure(sw int) func() {
+	a, b, c := size.DisableMarshalTextUnit, size.DisableMarshalJSONStringForm, size.DisableMarshalJSONObjectForm
+	size.DisableMarshalTextUnit, size.DisableMarshalJSONStringForm, size.DisableMarshalJSONObjectForm = sw&1 != 0, sw&2 != 0, sw&4 != 0
+	return func() {
+		size.DisableMarshalTextUnit, size.DisableMarshalJSONStringForm, size.DisableMarshalJSONObjectForm = a, b, c
+	}
 }
 
 var binaryUnits = map[string]int{"B": 0, "KiB": 1, "MiB": 2, "GiB": 3, "TiB": 4, "PiB": 5, "EiB": 6}
@@ -64,6 +74,19 @@ func judge(c Case, w *vkit.W) {
 			w.Fail(c, "rendering", fmt.Sprintf("DefaultFormatter(nil, %d, %s) = %q, %v; want %q", c.S, f.name, out, err, f.want))
 		}
 	}
+	// the same renderings into a reused buffer with spare capacity and into a prefix
+	scratch := make([]byte, 0, 96)
+	for _, f := range []struct {
+		flag size.Format
+		want string
+	}{{0, plain}, {size.FormatPretty, pretty}, {size.FormatPretty | size.FormatHTML, html}} {
+		if out, err := size.DefaultFormatter(scratch[:0], s, f.flag); err != nil || string(out) != f.want {
+			w.Fail(c, "rendering", fmt.Sprintf("DefaultFormatter(buffer with spare capacity, %d, %d) = %q, %v; want %q", c.S, f.flag, out, err, f.want))
+		}
+		if out, err := size.DefaultFormatter(append(scratch[:0], "n=7"...), s, f.flag); err != nil || string(out) != "n=7"+f.want {
+			w.Fail(c, "rendering", fmt.Sprintf("DefaultFormatter(\"n=7\", %d, %d) = %q, %v; want %q", c.S, f.flag, out, err, "n=7"+f.want))
+		}
+	}
 	if got := s.String(); got != plain {
 		w.Fail(c, "rendering", fmt.Sprintf("Size(%d).String() = %q want %q", c.S, got, plain))
 	}
@@ -94,6 +117,7 @@ func TestCheck(t *testing.T) {
 		if err := r.LoadReplay(&c); err != nil {
 			t.Fatalf("replay: %v", err)
 		}
+		defer configure(c.Switches)()
 		r.Serial(func(w *vkit.W) { judge(c, w); w.Eval(true) })
 		return
 	}
@@ -104,11 +128,28 @@ func TestCheck(t *testing.T) {
 		if err := json.Unmarshal(raw, &c); err != nil {
 			return err
 		}
+		defer configure(c.Switches)()
 		judge(c, w)
 		w.Eval(true)
 		return nil
 	})
 	strata := ref.SizeStrata(1 << 20)
+	r.Phase("A0: the marshalling switches (DisableMarshalTextUnit / JSONStringForm / JSONObjectForm) do not influence Shorten, String, PrettyString, PrettyHTML, DefaultFormatter", func() {
+		a, b, cc := size.DisableMarshalTextUnit, size.DisableMarshalJSONStringForm, size.DisableMarshalJSONObjectForm
+		defer func() {
+			size.DisableMarshalTextUnit, size.DisableMarshalJSONStringForm, size.DisableMarshalJSONObjectForm = a, b, cc
+		}()
+		for sw := 1; sw < 8; sw++ {
+			size.DisableMarshalTextUnit, size.DisableMarshalJSONStringForm, size.DisableMarshalJSONObjectForm = sw&1 != 0, sw&2 != 0, sw&4 != 0
+			r.Parallel(int64(len(strata))/8, 1024, func(w *vkit.W, lo, hi int64) {
+				for i := lo; i < hi; i++ {
+					c := Case{S: strata[i*8+int64(sw)], Switches: sw}
+					judge(c, w)
+					w.Eval(nontrivial(c.S))
+				}
+			})
+		}
+	})
 	r.Phase(fmt.Sprintf("A: %d stratified values (all < 2^20, odd x 2^k, decimal lengths, neighbours of 1000^k/1024^k, m x 1024^k, top 2049)", len(strata)), func() {
 		r.Parallel(int64(len(strata)), 4096, func(w *vkit.W, lo, hi int64) {
 			for i := lo; i < hi; i++ {
